@@ -819,8 +819,8 @@ class CFG:
         if isinstance(other, regular_expression.Regex):
             other = other.to_epsilon_nfa().to_deterministic()
         elif isinstance(other, FiniteAutomaton):
-            if not other.is_deterministic():
-                other = other.to_deterministic()
+            # Also when it is deterministic: the construction needs a DFA
+            other = other.to_deterministic()
         else:
             raise NotImplementedError
         if other.is_empty():
